@@ -114,7 +114,7 @@ theorem C01_leaf_needs_no_keep [AddLaws S] {G : Graph S} (sem : Sem G) (ℓ : Na
     its previous gradient plus the sum over all tracked paths from `h` to `ℓ` of the composed
     contributions — where the contribution `Λ n i` along an edge is *the stored closure's own `i`-th
     answer*, reduced by `flatten_to` (`State.sem_Λ`), not an assumed law. -/
-theorem C01_pathsum_of_stored_closures [AddLaws S] [MulLaws S] {σ : State S} (g : Good σ) (hs : ShapeOK σ)
+theorem C01_pathsum_of_stored_closures [AddLaws S] [MulLaws S] [CommLaws S] {σ : State S} (g : Good σ) (hs : ShapeOK σ)
     (ℓ j : Nat) (hleaf : σ.graph.kids ℓ = []) (h : Handle) (hv : h.Valid σ) (seed : Option (Tensor S))
     (hgr : ∀ t, σ.estate.grad ℓ = some t → Shaped (σ.dimsOf ℓ) t)
     (x : Tensor S) (hseed : seedOrOnes seed h.dims = .ok x) (hxs : Shaped (σ.dimsOf h.node) x)
@@ -125,7 +125,7 @@ theorem C01_pathsum_of_stored_closures [AddLaws S] [MulLaws S] {σ : State S} (g
     (by have := hv.1; omega) h.dims seed σ.estate e (estate_clean σ g.heap) rfl hgr x hseed hxs hok).1
 
 /-- … and the gradient it leaves has the leaf's shape -/
-theorem C01_grad_shape_of_stored_closures [AddLaws S] [MulLaws S] {σ : State S} (g : Good σ) (hs : ShapeOK σ)
+theorem C01_grad_shape_of_stored_closures [AddLaws S] [MulLaws S] [CommLaws S] {σ : State S} (g : Good σ) (hs : ShapeOK σ)
     (ℓ : Nat) (hleaf : σ.graph.kids ℓ = []) (h : Handle) (hv : h.Valid σ) (seed : Option (Tensor S))
     (hgr : ∀ t, σ.estate.grad ℓ = some t → Shaped (σ.dimsOf ℓ) t)
     (x : Tensor S) (hseed : seedOrOnes seed h.dims = .ok x) (hxs : Shaped (σ.dimsOf h.node) x)
@@ -139,7 +139,7 @@ theorem C01_grad_shape_of_stored_closures [AddLaws S] [MulLaws S] {σ : State S}
     `shapeOKb_sound`); the model driver evaluates it on the state before every pass of every correspondence
     run, so for each executed pass on which it answers `ok` — and the runs tie the model's states to the
     implementation's — the path-sum statement below holds with no assumption left about the operations. -/
-theorem C01_pathsum_when_check_passes [AddLaws S] [MulLaws S] {σ : State S} (g : Good σ) (hb : shapeOKb σ = true)
+theorem C01_pathsum_when_check_passes [AddLaws S] [MulLaws S] [CommLaws S] {σ : State S} (g : Good σ) (hb : shapeOKb σ = true)
     (ℓ j : Nat) (hleaf : σ.graph.kids ℓ = []) (h : Handle) (hv : h.Valid σ) (seed : Option (Tensor S))
     (hgr : ∀ t, σ.estate.grad ℓ = some t → Shaped (σ.dimsOf ℓ) t)
     (x : Tensor S) (hseed : seedOrOnes seed h.dims = .ok x) (hxs : Shaped (σ.dimsOf h.node) x)
